@@ -388,6 +388,43 @@ Definition effective_lsf (b : batch) (st : step) (k : rkey) : option str :=
   | _ => effective b st k
   end.
 
+Definition or_default (o : option str) (d : str) : option str :=
+  match o with Some v => Some v | None => Some d end.
+
+(** * Flux: the header is informational ("#INFO (key) value"); what it must say *)
+(** seconds of a walltime given as minutes (an integer) or as colon-separated
+    [[[H:]M:]S]; "inf" and nothing mean no limit (0) *)
+Fixpoint horner (acc : N) (parts : list N) : N :=
+  match parts with [] => acc | p :: r => horner (acc * 60 + p) r end.
+Fixpoint all_some (l : list (option N)) : option (list N) :=
+  match l with
+  | [] => Some []
+  | Some x :: r => option_map (cons x) (all_some r)
+  | None :: _ => None
+  end.
+Definition flux_seconds (declared : option str) : option N :=
+  match declared with
+  | None => Some 0
+  | Some d =>
+    if all_digits d then option_map (fun m => m * 60) (py_nat d)
+    else if containsb [58] d then option_map (horner 0) (all_some (map py_nat (split_on 58 d)))
+    else if str_eqb d (s "inf") then Some 0 else None
+  end.
+(** the text of the info line: an integer, or an integer followed by ".0" *)
+Definition read_seconds (t : str) : option N :=
+  match split_on 46 t with
+  | [a] => py_nat a
+  | [a; z] => if str_eqb z (s "0") then py_nat a else None
+  | _ => None
+  end.
+Definition flux_walltime_ok (declared read : option str) : bool :=
+  match flux_seconds declared, read with
+  | Some x, Some r => match read_seconds r with Some y => x =? y | None => false end
+  | _, _ => false
+  end.
+Definition effective_flux_nodes (b : batch) (st : step) : option str :=
+  match effective b st RNodes with Some v => Some v | None => Some (s "1") end.
+
 (** * The hygiene domain H15 *)
 (** a value that can stand unquoted in a directive or on a command line *)
 Definition safe_char (c : N) : bool :=
@@ -465,6 +502,7 @@ Definition batch_keys_ok (be : backend) (b : batch) : bool :=
      | None => true
      end.
 
+Definition memb (c : N) (t : str) : bool := existsb (N.eqb c) t.
 (** a key that, when present at all, holds a positive count *)
 Definition present_count (d : dict) (k : rkey) : bool :=
   match lookup (key_name k) d with
@@ -492,6 +530,16 @@ Definition lsf_dom (c : case) : bool :=
   && negb (has (s "job-name") (st_res st)) && negb (has (s "output") (st_res st))
   && negb (has (s "error") (st_res st)).
 
+(** what the Flux adapter needs on top: a walltime it can convert, a batch-level
+    node count that is not a false value, printable -o options *)
+Definition flux_dom (c : case) : bool :=
+  let st := c_step c in
+  match flux_seconds (declared (st_res st) RWalltime) with Some _ => true | None => false end
+  && match lookup (s "nodes") (b_kw (c_batch c)) with Some v => truthy v | None => true end
+  && forallb (fun kv : str * str => safe_tok (fst kv) && safe_tok (snd kv)
+                                     && negb (memb 44 (fst kv ++ snd kv)) && negb (memb 61 (fst kv)))
+             (b_args (c_batch c)).
+
 Definition H15 (c : case) : bool :=
   let st := c_step c in
   str_eqb (pieces_text (c_cmd c)) (st_cmd st)
@@ -504,7 +552,8 @@ Definition H15 (c : case) : bool :=
   && count_ok (st_res st) RNodes && count_ok (st_res st) RTasks
   && forallb (val_safe (st_res st)) res_keys_str
   && batch_keys_ok (c_be c) (c_batch c)
-  && (negb (backend_eqb (c_be c) Lsf) || lsf_dom c).
+  && (negb (backend_eqb (c_be c) Lsf) || lsf_dom c)
+  && (negb (backend_eqb (c_be c) Flux) || flux_dom c).
 
 (** * Known findings K6: signature predicates *)
 (** K6a: the documented batch-level [gpus] never reaches a header or launcher *)
@@ -580,8 +629,6 @@ Definition launch_ok_slurm (st : step) (p : piece) (text : str) : bool :=
 (** jsrun: tasks (resource sets), binding, gpus, tasks per rs, rs per node,
     cpus per rs; the documented defaults are 1 / "rs" *)
 Definition jsrun_keys : list rkey := [RTasks; RGpus; RBind; RBindGpus; RTasksPerRs; RRsPerNode; RCpusPerTask].
-Definition or_default (o : option str) (d : str) : option str :=
-  match o with Some v => Some v | None => Some d end.
 Definition want_lsf (st : step) (p : piece) : want :=
   [ (RTasks, match p with PTok f => Some (tok_procs f) | _ => declared (st_res st) RTasks end);
     (RGpus, declared (st_res st) RGpus);
@@ -596,6 +643,30 @@ Definition want_lsf (st : step) (p : piece) : want :=
 Definition launch_ok_lsf (st : step) (p : piece) (text : str) : bool :=
   match read_jsrun text with
   | Some r => reads_as r (want_lsf st p) jsrun_keys
+  | None => false
+  end.
+
+(** flux run: tasks, nodes (a token without a node count and the bare variable
+    of a step without nodes get the batch block's node count, default 1),
+    cores per task (default 1), gpus, and the batch block's -o options *)
+Definition fluxrun_keys : list rkey := [RTasks; RNodes; RCpusPerTask; RGpus; ROpts].
+Definition flux_opts (b : batch) : option str :=
+  match b_args b with
+  | [] => None
+  | l => Some (join (s ",") (map (fun kv : str * str => fst kv ++ s "=" ++ snd kv) l))
+  end.
+Definition want_flux (b : batch) (st : step) (p : piece) : want :=
+  [ (RTasks, match p with PTok f => Some (tok_procs f) | _ => declared (st_res st) RTasks end);
+    (RNodes, or_default (match (match p with PTok f => tok_nodes f | _ => declared (st_res st) RNodes end) with
+                         | Some n => Some n
+                         | None => declared (b_kw b) RNodes
+                         end) (s "1"));
+    (RCpusPerTask, or_default (declared (st_res st) RCpusPerTask) (s "1"));
+    (RGpus, declared (st_res st) RGpus);
+    (ROpts, flux_opts b) ].
+Definition launch_ok_flux (b : batch) (st : step) (p : piece) (text : str) : bool :=
+  match read_flux_run text with
+  | Some r => reads_as r (want_flux b st p) fluxrun_keys
   | None => false
   end.
 
@@ -616,6 +687,12 @@ Definition lsf_script_ok (c : case) (ps : list piece) (text : str) : bool :=
   && forallb (fun k => (count_key k (read_bsub_all text) <=? 1)%nat) (RWalltime :: lsf_header_keys)
   && negb (containsb launcher_var (script_body text))
   && match_body (launch_ok_lsf (c_step c)) (ps ++ [PText [nl]]) (script_body text).
+Definition flux_script_ok (c : case) (ps : list piece) (text : str) : bool :=
+  str_eqb (first_line text) (shebang_of (c_batch c))
+  && opt_eqb (read_flux_info text (s "nodes")) (effective_flux_nodes (c_batch c) (c_step c))
+  && flux_walltime_ok (effective (c_batch c) (c_step c) RWalltime) (read_flux_info text (s "walltime"))
+  && negb (containsb launcher_var (script_body text))
+  && match_body (launch_ok_flux (c_batch c) (c_step c)) (ps ++ [PText [nl]]) (script_body text).
 (** a local script: shebang, then the command verbatim *)
 Definition verbatim_ok (c : case) (cmd text : str) : bool :=
   str_eqb (first_line text) (shebang_of (c_batch c))
@@ -648,7 +725,7 @@ Definition C15_holds (c : case) (o : obs) : bool :=
     match c_be c with
     | Slurm | Local => script_ok c (slurm_script_ok c) sc
     | Lsf => script_ok c (lsf_script_ok c) sc
-    | Flux => true
+    | Flux => script_ok c (flux_script_ok c) sc
     end
   end.
 Definition C15_ok (c : case) (o : obs) : bool := negb (H15 c) || C15_holds c o.
